@@ -16,6 +16,10 @@ parse -> print_ast -> parse -> print_ast with include_descriptions=True:
      queries whose selection set could be re-read as fields / enum values / input fields / operation
      types, named / parameterised / directed queries, mutations, subscriptions, fragments), plus
      three-definition sandwiches; every indent setting;
+ (C) coinciding lexemes: small families of documents in which two names of one construct are EQUAL (alias ==
+     field name, argument == field, variable == argument, fragment name == field / type, enum value == field,
+     directive == field, operation == fragment, object field == argument, and the type-system analogues) --
+     the corpus' leaf rotation makes neighbouring names differ on purpose; every indent setting;
  (T) every derivation of the reference grammar (gen/trees.py, both dialects, fragment variables on) up
      to the node bound, with every leaf rotation, under every indent setting; and with each token of
      a feature list (FEATURE_TOKENS: empty, astral, quotes/backslashes, leading blank, trailing
@@ -165,6 +169,48 @@ def mixed_documents():
     return out
 
 
+# Coinciding lexemes: the leaf rotation of the corpus makes neighbouring names DIFFER (so that order bugs show);
+# these small families make two names of one construct EQUAL, where a printer might think one of them redundant.
+COINCIDENCES = [
+    ("alias==field", [
+        "{ id: id }", "{ a: a b: b }", "{ a: a(x: 1) }", "{ a: a @d }", "{ a: a { b: b } }", "{ x { id: id } }",
+        "query Q { a: a }", "mutation { a: a }", "fragment F on T { a: a }", "{ ... on T { a: a } }",
+        "{ a: a a: b b: a }", "{ on: on }", "{ query: query }", "{ true: true }",
+    ]),
+    ("argument==field", ["{ a(a: 1) }", "{ a(a: $a) }", "{ a: a(a: a) }", "{ x { a(a: [a]) } }", "{ a @a(a: 1) }"]),
+    ("variable==argument", [
+        "query ($x: T) { a(x: $x) }", "query Q($a: T = a) { a(a: $a) }", "query ($a: T @a) { a @a(a: $a) }",
+        "query ($x: T) { a(x: {x: $x}) }", "query ($x: T) { a(x: [$x, $x]) }",
+    ]),
+    ("fragment==field-or-type", [
+        "{ ...a a } fragment a on T { a }", "{ a { ...T } } fragment T on T { a }", "fragment F on F { F }",
+        "{ ...F } fragment F on T { ...F }", "{ ... on a { a } }", "fragment a on a @a { a: a }",
+    ]),
+    ("enum-value==field", ["{ a(x: a) }", "{ RED(c: RED) }", "{ a(x: [a, a]) }", "{ a(x: {a: a}) }", "query ($v: T = v) { v }"]),
+    ("directive==field", ["{ a @a }", "{ a @a(a: a) }", "query a @a { a }", "{ ...a @a } fragment a on a { a }", "{ ... @a { a } }"]),
+    ("operation==fragment", [
+        "query F { ...F } fragment F on T { a }", "mutation a { a } fragment a on T { a }",
+        "query Q { a } query Q { b }", "subscription query { query }", "query query { query }", "query mutation { mutation }",
+    ]),
+    ("object-field==argument", ["{ a(x: {x: 1}) }", "{ a(x: {x: {x: $x}}) }", "{ a @d(k: {k: k}) }", "query ($x: T = {x: 1}) { a(x: $x) }"]),
+    ("type-system", [
+        "type T { T: T }", "type T implements T { f(f: T = f): T @f }", "interface I { I(I: I): I }", "union U = U | V",
+        "enum E { E }", "enum A { A @A }", "input I { I: I = I }", "directive @d(d: T) on FIELD | FIELD",
+        "scalar query", "type query { query: query }", "schema { query: query mutation: query }",
+        "extend type T implements T @T { T: T }", "extend union U = U", "extend enum E { E }", "extend input I @I { I: I }",
+        "schema @schema { query: schema }", "directive @on on QUERY",
+    ]),
+]
+
+
+def coinciding_documents():
+    out = []
+    for fam, docs in COINCIDENCES:
+        for k, text in enumerate(docs):
+            out.append(("%s#%d" % (fam, k), text))
+    return out
+
+
 MIXED_FLAGS = {"allow_type_system": True}
 MIXED_CHUNK = 60
 
@@ -223,6 +269,8 @@ def cases(tier):
                 "k": "h", "host": h[0], "block": True, "prefix": c,
                 "len": b["block_len_long"] if hi < b["long_hosts"] else b["block_len"], "tier": tier,
             }
+    for fam, docs in COINCIDENCES:
+        yield {"k": "c", "family": fam, "tier": tier}
     nm = len(mixed_documents())
     for lo in range(0, nm, MIXED_CHUNK):
         yield {"k": "m", "lo": lo, "hi": min(nm, lo + MIXED_CHUNK), "tier": tier}
@@ -556,6 +604,16 @@ def check_case(case, st):
         st.mx("token_body_len:" + ("block" if block else "quoted"), case["len"])
         return out
 
+    if case["k"] == "c":
+        for cid, text in coinciding_documents():
+            if not cid.startswith(case["family"] + "#"):
+                continue
+            st.n("coinciding_lexeme_documents")
+            for ind in range(len(INDENTS)):
+                for cls, detail in roundtrip(text, dict(MIXED_FLAGS), INDENTS[ind], st):
+                    emit(cls, {"k": "c", "id": cid, "text": text, "indent": ind}, detail)
+        return out
+
     if case["k"] == "m":
         docs = mixed_documents()
         for mid, text in docs[case["lo"]:case["hi"]]:
@@ -607,7 +665,7 @@ def replay(witness):
     if k == "h":
         text, flags = host_text(witness["host"], witness["block"], witness["body"])
         return roundtrip(text, flags, INDENTS[witness["indent"]])
-    if k == "m":
+    if k in ("m", "c"):
         return roundtrip(witness["text"], dict(MIXED_FLAGS), INDENTS[witness["indent"]])
     if k == "x":
         col = []
